@@ -272,10 +272,11 @@ instance (cs : List (Cmd Tok)) : Decidable (WellFormed cs) := by unfold WellForm
 
 /-! ### the converter's dialect
 
-No arcs; separators are spaces only; spaces may also follow a verb letter (`lead`) — here the general
-concrete syntax carries them as the separator run of a command's verb.  The first command is an
-absolute `M`, and a move has exactly ONE operand group: the converter re-emits a close-and-move for
-every further group of `M`/`m` where SVG spells line-tos (see the findings in `Ivg/Props/C20.lean`). -/
+No arcs; separators are SPACES only (no commas); spaces may also follow a verb letter (`lead`; the
+generator does not accept those).  The first command is an absolute `M` at the very start of the data,
+and a move has exactly ONE operand group: the converter re-emits a close-and-move for every further
+group of `M`/`m` where SVG spells line-tos, and takes a leading `m` for a later one (see the findings in
+`Ivg/Props/C20.lean`). -/
 
 def arityMd (verb : Char) : Option Nat :=
   match verb with
@@ -284,20 +285,19 @@ def arityMd (verb : Char) : Option Nat :=
 
 structure MdCmd where
   cmd : Cmd CTok
-  /-- spaces between the verb letter and its first numeral -/
+  /-- number of spaces between the verb letter and its first numeral (after `z`/`Z`: before the next verb) -/
   lead : Nat
-  /-- spaces before the verb letter (after the previous command's last separator run) -/
-  pre : Nat
 deriving DecidableEq, Repr
 
 def renderMdCmd (c : MdCmd) : List Char :=
-  List.replicate c.pre ' ' ++ c.cmd.verb :: (List.replicate c.lead ' ' ++ c.cmd.groups.flatMap (·.flatMap CTok.render))
+  c.cmd.verb :: (List.replicate c.lead ' ' ++ c.cmd.groups.flatMap (·.flatMap CTok.render))
 
 def renderMdCmds (cs : List MdCmd) : List Char := cs.flatMap renderMdCmd
 
-/-- converter printer: the data optionally terminated by one `z` -/
-def renderMd (cs : List MdCmd) (finalZ : Bool) : String :=
-  String.ofList (renderMdCmds cs ++ if finalZ then ['z'] else [])
+/-- converter printer: the data terminated by one `z` (which `ParsePathData` trims) … -/
+def renderMd (cs : List MdCmd) : String := String.ofList (renderMdCmds cs ++ ['z'])
+/-- … or not terminated -/
+def renderMdOpen (cs : List MdCmd) : String := String.ofList (renderMdCmds cs)
 
 def isSpace (c : Char) : Bool := c = ' '
 
@@ -313,7 +313,7 @@ def mdCmdOK (c : MdCmd) : Bool :=
 
 def WellFormedMd (cs : List MdCmd) : Prop :=
   (match cs with
-   | c :: _ => c.cmd.verb = 'M' ∧ c.pre = 0
+   | c :: _ => c.cmd.verb == 'M'
    | [] => false) = true ∧ cs.all mdCmdOK = true
 
 instance (cs : List MdCmd) : Decidable (WellFormedMd cs) := by unfold WellFormedMd; infer_instance
